@@ -9,6 +9,7 @@ require (
 	github.com/anishathalye/porcupine v1.3.0
 	github.com/gorhill/cronexpr v0.0.0-20180427100037-88b0669f7d75
 	github.com/robertkrimen/otto v0.0.0-20191219234010-c382bd3c16ff
+	gopkg.in/yaml.v2 v2.3.0
 	pgregory.net/rapid v1.3.0
 )
 
